@@ -381,6 +381,9 @@ fn malformed_header(kind: u8, id: u64) -> Vec<u8> {
 
 fn c06_async_client(case: &Case) {
     net::reset(draw_net());
+    if simkernel::choose(8) == 0 {
+        return c06_stall_then_silent(case);
+    }
     match simkernel::choose(4) {
         0 | 1 => c06_fault(case),
         2 => c06_timeout_race(case),
@@ -702,6 +705,57 @@ fn c06_cancel(case: &Case) {
         drop(client);
         let _ = server.await;
         case.nontrivial();
+    });
+}
+
+/// A peer that does not read for longer than the call's timeout, then drains and never answers.
+fn c06_stall_then_silent(case: &Case) {
+    let stall_ms = pick(&[20u64, 200, 1_500]);
+    let timeout_ms = pick(&[5u64, 50, 150]);
+    let size = pick(&[10usize, 5_000, 200_000]);
+    case.sample(json!({"scenario": "stall-then-silent", "peer_reads_after_ms": stall_ms, "call_timeout_ms": timeout_ms, "request_bytes": size}));
+    net::set_config(NetConfig { capacity: pick(&[1024usize, 65_536]), lat_min: 0, lat_max: 10_000, max_segment: 0 });
+    let case = case.clone();
+    aio::run(&case.clone(), 3_600, async move {
+        let listener = TcpListener::bind("127.0.0.1:0").await.unwrap();
+        let addr = listener.local_addr().unwrap();
+        let server = tokio::spawn(async move {
+            let Ok((mut s, _)) = listener.accept().await else { return };
+            sleep_ms(stall_ms).await;
+            simkernel::count("fault.stall_reader");
+            let mut buf = vec![0u8; 1 << 16];
+            loop {
+                match timeout(Duration::from_millis(3_000), tokio::io::AsyncReadExt::read(&mut s, &mut buf)).await {
+                    Ok(Ok(n)) if n > 0 => {}
+                    _ => return,
+                }
+            }
+        });
+        let client = match AsyncClient::connect(addr).await {
+            Ok(c) => c,
+            Err(e) => {
+                case.harness_error(format!("connect failed: {e}"));
+                return;
+            }
+        };
+        let body = pattern(1, size);
+        let t0 = simkernel::now_ns();
+        let r = timeout(Duration::from_secs(600), client.call_with_formats_and_timeout("/never-answered", 1, Some(&body), 0, Duration::from_millis(timeout_ms))).await;
+        let took_ms = (simkernel::now_ns() - t0) / 1_000_000;
+        match r {
+            Err(_) => case.fail("hang", format!("a call with a {timeout_ms} ms timeout was still pending after 600 s (peer read after {stall_ms} ms, never answered)")),
+            Ok(r) => {
+                case.check(r.is_err(), "ok-without-response", || "a call the peer never answered returned Ok".into());
+                case.check(took_ms <= stall_ms + timeout_ms + 1_000, "call-outlived-its-timeout", || format!("call with a {timeout_ms} ms timeout returned after {took_ms} ms (the peer started reading after {stall_ms} ms and never answered)"));
+            }
+        }
+        let r2 = timeout(Duration::from_secs(600), client.call_json_with_timeout("/also-never", &json!({"x": 1}), Duration::from_millis(timeout_ms))).await;
+        case.check(matches!(r2, Ok(Err(_))), "hang", || "a second timed call did not return an error".into());
+        case.check(client.verif_pending_len() == 0, "pending-residue", || format!("{} pending entries after timed-out calls", client.verif_pending_len()));
+        drop(client);
+        let _ = timeout(Duration::from_secs(10), server).await;
+        case.nontrivial();
+        case.probe("timeout_expired_while_peer_stalled");
     });
 }
 
